@@ -1199,4 +1199,14 @@ example : let gs : List Gate := [⟨"h", [0]⟩, ⟨"cx", [0, 1]⟩, ⟨"cz", [1
     by decide, by decide, Or.inl (by decide +kernel)⟩) (List.Forall₂.cons (Or.inr ⟨3, 2, rfl, by decide, by decide,
     by decide, Or.inr (Or.inr (Or.inr (by decide +kernel)))⟩) List.Forall₂.nil))))
 
+/-- **the placed gates sit on the modes the driver reports**: the supports of the gates `convGatesM` places are
+`planModes n gs (planKinds true gs labels) j` — the very list the driver's `modes` request returns and the harness
+compares, for every converted circuit, with the positions of the real processor's components.  This is what ties
+the object of `converted_processor_implements` to the code. -/
+theorem converted_gates_sit_on_plan_modes [Field R] [CharZero R] (n : ℕ) (hv : List ℕ)
+    (oneQ : Gate → Matrix (Fin 2) (Fin 2) R) (r h c2 s2 : R) (gs : List Gate) (ls : List String) (j : ℕ)
+    (cgs : List (ConvGate (convLayout n hv) R)) (hconv : convGatesM n hv oneQ gs ls j = some cgs) :
+    (convSteps r h c2 s2 cgs).map (·.S) = planModes n gs (planKinds true gs ls) j :=
+  convGatesM_modes_planKinds n hv oneQ r h c2 s2 gs ls j cgs hconv
+
 end PM.C20
